@@ -378,6 +378,10 @@ func (db *RockDB) KVExists(keys ...[]byte) (int64, error) {
 	cnt := int64(0)
 	db.MultiGetBytes(keyList, valueList, errs)
 	for i, v := range valueList {
+		if keyList[i] == nil {
+			// invalid key, the errs may be overwritten by the engine while multi get
+			continue
+		}
 		if errs[i] == nil && v != nil {
 			expired, _ := db.expiration.isExpired(tn, KVType, keys[i], v, true)
 			if expired {
